@@ -636,6 +636,24 @@ func checkC05(c *Ctx) *report.Result {
 		fetchOK := len(calls) >= 1 && !calls[0].Write && calls[0].Addr != nil && calls[0].Addr.HasBase && calls[0].Addr.Base == pcS && calls[0].Addr.Off == 0
 		r.Ob("H-bug", pc != nil && pc.HasBase && pc.Base == pcS && pc.Off == wantOff && bc && !b && fetchOK, fmt.Sprintf("fetch with halt-bug flag %v: PC advances by %d, flag clear afterwards", bug, wantOff), firstPos(c, m.NextFn), fmt.Sprintf("pc' = %s, flag' = %v, opcode fetched at pc %v", ai.ValueString(pc), b, fetchOK))
 	}
+	// the same with a CB prefix after HALT: the prefix byte is read twice (decoded as CB CB), PC ends one past it
+	for _, bug := range []bool{true, false} {
+		st := c.quietState(m)
+		im.setIEIF(st, 0, 0)
+		st.SetCell(cpu, ".haltbug", ai.NewConstBool(bug))
+		pcS := c.symCell(st, cpu, ".pc")
+		ev, calls := c.evalCPU(st, m.NextFn, []ai.Value{ptrTo(cpu)}, nil, ai.NewConstInt(8, false, 0xCB))
+		pc := c.cellInt(ev.Post, cpu, ".pc")
+		wantPC, wantSecond := int64(2), int64(1)
+		if bug {
+			wantPC, wantSecond = 1, 0
+		}
+		okReads := len(calls) >= 2 && !calls[0].Write && !calls[1].Write && calls[0].Addr != nil && calls[1].Addr != nil &&
+			calls[0].Addr.HasBase && calls[0].Addr.Base == pcS && calls[0].Addr.Off == 0 &&
+			calls[1].Addr.HasBase && calls[1].Addr.Base == pcS && calls[1].Addr.Off == wantSecond
+		b, bc := boolConst(c.cellBool(ev.Post, cpu, ".haltbug"))
+		r.Ob("H-bug", pc != nil && pc.HasBase && pc.Base == pcS && pc.Off == wantPC && okReads && bc && !b, fmt.Sprintf("fetch of a CB prefix with halt-bug flag %v: second byte read at PC+%d, PC advances by %d", bug, wantSecond, wantPC), firstPos(c, m.NextFn), fmt.Sprintf("pc' = %s, reads %d", ai.ValueString(pc), len(calls)))
+	}
 	// ---- H-own
 	{
 		allowed := map[*ssa.Function]bool{haltF.Fn: true, unwrapBound(haltF.Fn): true, im.CheckFn: true, m.NextFn: true}
